@@ -76,15 +76,17 @@ def check(seed_id, tier, props):
     try:
         for p in props:
             t0 = time.time()
-            r = sh("cd %s && DIAMETER_SRC=%s/src python3-vt run.py check %s --tier %s" % (HERE, wt, p, tier))
+            evf = os.path.join(HERE, "evidence", p + ".json")
+            keep = open(evf).read() if os.path.exists(evf) else None
+            r = sh("cd %s && VERIF_EVIDENCE_DIR=/tmp/seed-evidence DIAMETER_SRC=%s/src python3-vt run.py check %s --tier %s" % (HERE, wt, p, tier))
             vio = [l for l in r.stdout.splitlines() if l.startswith("VIOLATION")]
             res[p] = {"exit": r.returncode, "violations": vio[:4], "wall_s": round(time.time() - t0), "tier": tier,
                       "summary": [l for l in r.stdout.splitlines() if l.startswith(p + " ")][-1:]}
             print(seed_id, p, tier, "exit", r.returncode, vio[:2], res[p]["summary"])
             if r.returncode not in (0, 1):
                 print(r.stdout[-1500:])
-            # evidence written by this run describes the mutated tree: restore the committed one
-            sh("cd %s && git checkout -- evidence/%s.json" % (HERE, p))
+            # evidence written by this run describes the mutated tree: put back what was there
+            pass
     finally:
         drop(wt)
     meta.setdefault("detected_by", {}).update(res)
@@ -92,7 +94,41 @@ def check(seed_id, tier, props):
     return 0
 
 
+def recheck(seed_id):
+    """fast regression: run only the obligation(s) recorded as catching this seed (VERIF_ONLY) and expect a VIOLATION again"""
+    import re
+    dst = os.path.join(SEEDED, seed_id)
+    meta = json.load(open(os.path.join(dst, "meta.json")))
+    det = meta.get("detected_by", {})
+    cands = []
+    for prop, r in det.items():
+        for v in r.get("violations", []):
+            m = re.search(r"\((\S+) ", v)
+            if m:
+                cands.append((prop, m.group(1)))
+    if not cands:
+        print(seed_id, "RECHECK no recorded catching obligation")
+        return 2
+    wt = scratch(seed_id, os.path.join(dst, "patch.diff"))
+    try:
+        for prop, ob in cands[:3]:
+            only = ob if len(ob) < 60 else ob[:60]
+            evf = os.path.join(HERE, "evidence", prop + ".json")
+            keep = open(evf).read() if os.path.exists(evf) else None
+            r = sh("cd %s && VERIF_EVIDENCE_DIR=/tmp/seed-evidence DIAMETER_SRC=%s/src VERIF_ONLY='%s' python3-vt run.py check %s --tier quick" % (HERE, wt, only, prop))
+            pass
+            if "VIOLATION" in r.stdout:
+                print(seed_id, "RECHECK ok", prop, only)
+                return 0
+        print(seed_id, "RECHECK LOST", cands[:3], r.stdout[-300:].replace("\n", " | "))
+        return 1
+    finally:
+        drop(wt)
+
+
 if __name__ == "__main__":
+    if sys.argv[1] == "recheck":
+        sys.exit(recheck(sys.argv[2]))
     if sys.argv[1] == "confirm":
         sys.exit(confirm(sys.argv[2], sys.argv[3], sys.argv[4]))
     tier = "quick"
